@@ -17,42 +17,6 @@ def readJweReg (strict allowed extra verifyAll : String) : Option JweRegistry :=
 def readSender (s : String) : Option (Option KeyBase) :=
   if s == "~" then some none else (readKeyBase s).map some
 
-def optDict (kvs : Dict) (k : String) : Option (Option Dict) :=
-  match Dict.get? kvs k with
-  | none => some none
-  | some (.obj d) => some (some d)
-  | _ => none
-
-def optStr (kvs : Dict) (k : String) : Option (Option String) :=
-  match Dict.get? kvs k with
-  | none => some none
-  | some (.str s) => some (some s)
-  | _ => none
-
-def reqStr (kvs : Dict) (k : String) : Option String :=
-  match Dict.get? kvs k with | some (.str s) => some s | _ => none
-
-def readJweJson (v : JVal) : Option JweJson :=
-  match v with
-  | .obj kvs => do
-    let prot ← reqStr kvs "protected"
-    let unprotected ← optDict kvs "unprotected"
-    let iv ← reqStr kvs "iv"
-    let ciphertext ← reqStr kvs "ciphertext"
-    let tag ← reqStr kvs "tag"
-    let aad ← optStr kvs "aad"
-    if Dict.contains kvs "recipients" then do
-      let rs ← match Dict.get? kvs "recipients" with
-        | some (.arr xs) => xs.mapM fun x => match x with
-          | .obj d => do some { header := ← optDict d "header", encryptedKey := ← optStr d "encrypted_key" : JsonRecipient }
-          | _ => none
-        | _ => none
-      some { prot, unprotected, iv, ciphertext, tag, aad, general := true, recipients := rs }
-    else do
-      let r : JsonRecipient := { header := ← optDict kvs "header", encryptedKey := ← optStr kvs "encrypted_key" }
-      some { prot, unprotected, iv, ciphertext, tag, aad, general := false, recipients := [r] }
-  | _ => none
-
 def handleJwe (toks : List String) (tbl : Table) : Option String :=
   let P := oraclePrims tbl
   match toks with
